@@ -640,6 +640,78 @@ def _linform(e, fl, at, Lsym, depth=0):
     return None
 
 
+def r98(ctx):
+    """Extension guards use the ensemble's own interfaces.
+
+    A function that extends a segment to a full path (it calls engine.propagate /
+    shoot_backwards under a test `left <= frame.order[0] < right`) decides with that test
+    whether the end of the path is still inside. The accepted path must end outside the
+    *ensemble's* interfaces, so the bounds of the test must be value-equal to elements of
+    <ens>["interfaces"] (no copy that is modified, no cap, no sub-ensemble list)."""
+    rid = "R-9.8"
+    from ..flow import stores_in
+    n = 0
+    for m, q, f in ctx.tree.all_funcs([TIS]):
+        props = [c for c in walk_local(f) if isinstance(c, ast.Call) and last_name(c) in ("propagate", "shoot_backwards")]
+        if not props:
+            continue
+        fl = None
+        for c in walk_local(f):
+            if not (isinstance(c, ast.Compare) and any(".order[" in ast.unparse(o) for o in [c.left] + c.comparators)):
+                continue
+            fl = fl or flow_of(f)
+            cfg = fl.cfg
+            at = cfg.node_of(c)
+            # does the test govern a propagation?
+            governs = False
+            for bn in [x for x in cfg.nodes if x.kind == "branch" and (x.ast is c or any(y is c for y in ast.walk(x.ast)))]:
+                for p in props:
+                    if cfg.dominates(bn, cfg.node_of(p)):
+                        governs = True
+            if not governs:
+                continue
+            n += 1
+            bad = None
+            for op in [c.left] + c.comparators:
+                if ".order[" in ast.unparse(op):
+                    continue
+                base = op.value if isinstance(op, ast.Subscript) else op
+                if isinstance(op, ast.Constant):
+                    continue
+                srcs = list(fl.sources(base, at))
+                expanded = []
+                for s4 in srcs:
+                    if s4[0] == "unpack" and hasattr(s4[1], "value") and isinstance(s4[1].value, ast.AST):
+                        expanded.extend(fl.sources(s4[1].value, s4[1].at))
+                    else:
+                        expanded.append(s4)
+                for kind, node, sat, extra in expanded:
+                    okk = False
+                    if kind == "param" and str(extra).endswith("['interfaces']"):
+                        okk = True
+                    elif kind.startswith("sub:") and "['interfaces']" in str(extra):
+                        okk = True
+                    elif kind == "unpack" and isinstance(node, ast.AST) and "['interfaces']" in ast.unparse(node).replace('"', "'"):
+                        okk = True
+                    elif kind == "free" and "['interfaces']" in str(extra):
+                        okk = True
+                    if not okk:
+                        bad = (ast.unparse(op), kind, short(node, 50) if isinstance(node, ast.AST) else str(extra))
+                # element stores into the list itself
+                bp = path_of(base)
+                if bp:
+                    for tt, st, k in stores_in(f):
+                        if isinstance(tt, ast.Subscript) and path_of(tt.value) == bp:
+                            bad = (ast.unparse(op), "element-store", short(st, 50))
+            if bad:
+                ctx.bad(rid, c, f"{q}: the test that decides whether the path end still needs extension compares with `{bad[0]}` which is not an element of the ensemble's own interfaces ({bad[1]}: {bad[2]}): a path ending between that bound and the ensemble's interface is accepted without reaching the interface",
+                        construct=f"extension guard {short(c, 60)}")
+            else:
+                ctx.ok(rid, c, f"{q}: extension guard `{short(c, 50)}` uses the ensemble's own interfaces")
+    if n < 2:
+        raise AnalysisError(f"R-9.8: only {n} extension guards found (expected 2 in extender)")
+
+
 def r96(ctx):
     """A wire-fencing extension that stops at its own length limit must be rejected."""
     rid = "R-9.6"
@@ -749,6 +821,7 @@ def r96(ctx):
 def run(ctx):
     ctx.rule("R-9.6", "a wire-fencing extension whose success flag is discarded is covered by a length test that rejects every truncated extension (linear arithmetic on lengths)", floor=1)
     ctx.rule("R-9.7", "positional role agreement in the move functions: (start, end, middle, cross), (success, status), (shooting_point, idx, dek), (n_frames, new_segment), (accept, paths, status) are unpacked / passed at the callee's positions", floor=20)
+    ctx.rule("R-9.8", "the tests that decide whether a path end still needs extension compare the frame's order parameter with elements of the ensemble's own interfaces (not a cap / sub-ensemble / modified copy)", floor=2)
     ctx.rule("R-9.1", "every return of a move function pairs flag True with status 'ACC' and flag False with a non-'ACC' status", floor=30)
     ctx.rule("R-9.2", "the job's path is replaced only under status == 'ACC'; treat_output numbers only new paths", floor=4)
     ctx.rule("R-9.3", "frames reach engine sinks only as fresh copies; input paths are never extended in place", floor=13)
@@ -761,11 +834,17 @@ def run(ctx):
     ctx.attempt(r94, ctx)
     ctx.attempt(r95, ctx)
     ctx.attempt(r96, ctx)
+    ctx.attempt(r98, ctx)
     from .shared import role_agreement
     ctx.attempt(role_agreement, ctx, "R-9.7", [TIS, PATH], None, " (the move would test / return the wrong component)")
 
 
 VARIANTS = [
+    B("c09-extender-cap-bound", TIS, '    interfaces = ens_set["interfaces"]\n    # ensemble[\'system\'] = source_seg.phasepoints[0].copy()', '    interfaces = list(ens_set["interfaces"])\n    if ens_set["mc_move"] == "wf":\n        interfaces[2] = ens_set["tis_set"].get("interface_cap", interfaces[2])\n    # ensemble[\'system\'] = source_seg.phasepoints[0].copy()', "R-9.8", control=True, why="seeded C09_c"),
+    B("c09-extender-middle-bound", TIS, "    sh_pt = trial_path.phasepoints[-1].copy()\n    if interfaces[0] <= sh_pt.order[0] < interfaces[-1]:", "    sh_pt = trial_path.phasepoints[-1].copy()\n    wf_b = [interfaces[0], ens_set[\"tis_set\"].get(\"interface_cap\", interfaces[-1])]\n    if wf_b[0] <= sh_pt.order[0] < wf_b[-1]:", "R-9.8"),
+    K("c09-keep-extender-direct-bounds", TIS, "    if interfaces[0] <= sh_pt.order[0] < interfaces[-1]:", "    if ens_set[\"interfaces\"][0] <= sh_pt.order[0] < ens_set[\"interfaces\"][-1]:", count=2),
+    K("c09-keep-extender-unpacked-bounds2", TIS, "    sh_pt = trial_path.phasepoints[-1].copy()\n    if interfaces[0] <= sh_pt.order[0] < interfaces[-1]:", "    sh_pt = trial_path.phasepoints[-1].copy()\n    lo, _, hi = ens_set[\"interfaces\"]\n    if lo <= sh_pt.order[0] < hi:"),
+    K("c09-keep-extender-unpacked-bounds", TIS, '    interfaces = ens_set["interfaces"]\n    # ensemble[\'system\'] = source_seg.phasepoints[0].copy()', '    interfaces = ens_set["interfaces"]\n    left, _, right = ens_set["interfaces"]\n    # ensemble[\'system\'] = source_seg.phasepoints[0].copy()'),
     B("c09-wf-start-end-permuted", TIS, "        start, end, _, _ = trial_seg.check_interfaces(wf_int)", "        end, start, _, _ = trial_seg.check_interfaces(wf_int)", "R-9.7", control=True),
     B("c09-shoot-unpack-permuted", TIS, "        shooting_point, idx, dek = prepare_shooting_point(", "        shooting_point, dek, idx = prepare_shooting_point(", "R-9.7"),
     K("c09-keep-unpack-renamed", TIS, "        start, end, _, _ = trial_seg.check_interfaces(wf_int)", "        start, end, _mid, _cr = trial_seg.check_interfaces(wf_int)"),
